@@ -2,10 +2,14 @@
   C20 — syntax-error messages name the offending token and its physical line.
   The message format; the line bookkeeping of each lexer step; and the whole-text theorem
   `lineno_is_physical_line`: every token of every text carries the physical line of its first
-  character (loop invariant of the token loop, SqLemmas/LexLemmas.lean).
+  character (loop invariant of the token loop, SqLemmas/LexLemmas.lean).  [B] `offending_token_is_a_token_of_the_text`
+  (SqLemmas/ParseErr.lean, induction over the parser like the soundness proof): whatever syntax error the parser
+  reports, the token it names is one of the tokens of the text (or the end of the input), and a reserved-word error
+  names a token of the text.  Together: `syntax_error_names_a_token_and_its_physical_line`.
 -/
 import Sq.Proto
 import SqLemmas.LexLemmas
+import SqLemmas.ParseErr
 namespace SqProps.C20
 open Sq
 
@@ -56,6 +60,46 @@ theorem lineno_is_physical_line (text : List Char) :
 theorem message_line_is_token_line (t : Token) (rest : List Token) :
     ∃ pre, Proto.syntaxMessage (t :: rest) = pre ++ " at line ".toList ++ Dec.natDigits t.line :=
   ⟨"Syntax error: ".toList ++ Proto.tokenText t, rfl⟩
+
+/-- **[B]** the token a syntax error points at is a token of the token list (`rest` is a suffix of it);
+    an empty `rest` is the end of the input -/
+theorem offending_token_is_a_token_of_the_text (ts : List Token) (rest : List Token)
+    (h : parseTokens ts = .error (.syn rest)) : ∃ pre, ts = pre ++ rest :=
+  parse_error_in_text h
+
+theorem reserved_word_error_names_a_token (ts : List Token) (t : Token) (h : parseTokens ts = .error (.res t)) : t ∈ ts :=
+  parse_error_in_text h
+
+/-- **[B] the whole clause**: for every text the lexer reads completely and the parser rejects at a token `t`, the
+    message is "Syntax error: <text of t> at line <n>" where `t` is one of the text's tokens and
+    `n = 1 +` the number of line feeds before `t` — whatever `;`, line breaks inside brackets, CRLF or comments precede -/
+theorem syntax_error_names_a_token_and_its_physical_line (text : List Char) (ts : List Token) (st' : LexSt)
+    (t : Token) (rest : List Token)
+    (hlex : lexFrom LexSt.init text = .ok (ts, st')) (hp : parseTokens ts = .error (.syn (t :: rest))) :
+    t ∈ ts ∧ t.line = 1 + nl (text.take t.pos) ∧
+    Proto.parseText LexSt.init text = .synErr (some t.pos)
+      ("Syntax error: ".toList ++ Proto.tokenText t ++ " at line ".toList ++ Dec.natDigits (1 + nl (text.take t.pos))) := by
+  obtain ⟨pre, hpre⟩ := parse_error_in_text hp
+  have hm : t ∈ ts := by rw [hpre]; simp
+  have hl : t.line = 1 + nl (text.take t.pos) := by
+    have := lineno_is_physical_line text t
+    rw [hlex] at this
+    exact this hm
+  refine ⟨hm, hl, ?_⟩
+  unfold Proto.parseText
+  rw [hlex]
+  simp only [hp]
+  rw [message_format, hl]
+  rfl
+
+/-- … and a rejection at the very end of the text is reported as an unexpected end of input -/
+theorem end_of_text_error (text : List Char) (ts : List Token) (st' : LexSt)
+    (hlex : lexFrom LexSt.init text = .ok (ts, st')) (hp : parseTokens ts = .error (.syn [])) :
+    Proto.parseText LexSt.init text = .synErr none "Syntax error: unexpected end of input".toList := by
+  unfold Proto.parseText
+  rw [hlex]
+  simp only [hp]
+  rfl
 
 /-! finite tests on the model (the D6 witnesses, now reporting the physical line) -/
 example : Proto.outcome "1;2 3" = (.syn, "Syntax error: 3 at line 1".toList) := by decide +kernel
